@@ -6,6 +6,7 @@ use std::io::{BufRead, Write};
 use std::panic;
 
 mod text;
+mod syntax_cmd;
 pub mod util;
 
 thread_local! {
@@ -15,6 +16,7 @@ thread_local! {
 fn dispatch(args: &[&str]) -> Option<String> {
     match args[0] {
         "lcall" | "posall" | "endcols" | "edit" | "editfull" | "semtok" => text::run(args),
+        "lex" | "parse" | "parsestat" | "shape" | "lossless" => syntax_cmd::run(args),
         _ => None,
     }
 }
